@@ -228,6 +228,54 @@ func genPoolShape(p *pkgInfo, out string) {
 		s.block(nil, fd.Body.List)
 		fmt.Fprintf(&b, "/-- skeleton of (HostClient).CloseIdleConnections: lock section, what happens to c.conns, the closing loop -/\ndef poolShape_CloseIdleConnections : List String := %s\n\n", leanStrList(s.tokens))
 	}
+	// transport.RoundTrip: every way out after AcquireConn, with what happens to the connection on it
+	if fd := p.funcDecl("transport", "RoundTrip"); fd == nil || fd.Body == nil {
+		b.WriteString("-- MISSING (transport).RoundTrip\n\n")
+	} else {
+		ps := &pipeSkel{fset: token.NewFileSet()}
+		var toks []string
+		var walk func(guards []string, stmts []ast.Stmt)
+		note := func(guards []string, n ast.Node) {
+			ast.Inspect(n, func(x ast.Node) bool {
+				if _, ok := x.(*ast.FuncLit); ok {
+					toks = append(toks, strings.Join(append(append([]string(nil), guards...), "stream close callback installed"), " | "))
+					return false
+				}
+				if ce, ok := x.(*ast.CallExpr); ok {
+					if nm := callName(ce); nm == "AcquireConn" || nm == "CloseConn" || nm == "ReleaseConn" {
+						toks = append(toks, strings.Join(append(append([]string(nil), guards...), nm), " | "))
+					}
+				}
+				return true
+			})
+		}
+		walk = func(guards []string, stmts []ast.Stmt) {
+			for _, st := range stmts {
+				switch x := st.(type) {
+				case *ast.IfStmt:
+					if x.Init != nil {
+						note(guards, x.Init)
+					}
+					g := with(guards, "if "+ps.expr(x.Cond))
+					walk(g, x.Body.List)
+					switch e := x.Else.(type) {
+					case *ast.BlockStmt:
+						walk(with(guards, "else of "+ps.expr(x.Cond)), e.List)
+					case *ast.IfStmt:
+						walk(with(guards, "else of "+ps.expr(x.Cond)), []ast.Stmt{e})
+					}
+				case *ast.ReturnStmt:
+					toks = append(toks, strings.Join(append(append([]string(nil), guards...), "return"), " | "))
+				case *ast.BlockStmt:
+					walk(guards, x.List)
+				default:
+					note(guards, st)
+				}
+			}
+		}
+		walk(nil, fd.Body.List)
+		fmt.Fprintf(&b, "/-- (transport).RoundTrip: AcquireConn, every CloseConn / ReleaseConn / return with its guards, in source order -/\ndef rtShape_RoundTrip : List String := %s\n\n", leanStrList(toks))
+	}
 	b.WriteString("end Fh.Gen\n")
 	writeIfChanged(filepath.Join(out, "PoolShape.lean"), b.Bytes())
 }
